@@ -142,11 +142,19 @@ func c17(args []string) error {
 		dec("range", text)
 	}
 	// single-character corruptions at every position
-	alphabet := []byte("0123456789abcdefABCDEFg:z ")
+	alphabet := []byte("0123456789abcdefABCDEFg:z +-.xX_,")
 	rng.Shuffle(len(valid), func(i, j int) { valid[i], valid[j] = valid[j], valid[i] })
 	for i := 0; i < len(valid) && i < *nCorrupt; i++ {
 		t := []byte(valid[i])
 		for pos := range t {
+			if i < 3 {
+				for _, c := range []byte("+- .x") {
+					m := append([]byte{}, t...)
+					m[pos] = c
+					dec("corrupt", string(m))
+					val("corrupt", string(m))
+				}
+			}
 			for k := 0; k < 3; k++ {
 				c := alphabet[rng.Intn(len(alphabet))]
 				if c == t[pos] {
